@@ -1459,6 +1459,16 @@ pub fn run_c16(tier: Tier, budget: Duration, frag: &mut Frag) {
         "cases": cases, "cases_that_panicked": panics, "wall_s": t0.elapsed().as_secs_f64()}));
     frag.states += cases;
     frag.transitions += cases;
+    // the par! / seq! macros against new / with
+    {
+        let t0 = Instant::now();
+        let ts = trees(if q { 3 } else { 4 }, 3, if q { 3 } else { 4 }, &alpha, false);
+        let n = macro_differential(&ts, &mut frag.col);
+        frag.parts.push(json!({"engine":"E1-style enumeration","what":format!("every par/seq tree with <= {} leaves (depth <= 3, 5-element leaf alphabet, conflicting par children included) built with the par! / seq! macros and with new / with, set up twice and dispatched twice inline: build panics, reported access, counters, final world and event order agree", if q { 3 } else { 4 }),
+            "cases": n, "wall_s": t0.elapsed().as_secs_f64()}));
+        frag.states += n;
+        frag.transitions += n;
+    }
     // run-time part
     let start = Instant::now();
     let alpha3: Vec<(Vec<u8>, Vec<u8>)> = acc(&[(&[0], &[]), (&[], &[0]), (&[], &[1])]);
